@@ -1,6 +1,6 @@
 """C02 C03 C04(crash half) C05 : I/O-journal trace validation against DiskTrace.tla with real recoveries of
 materialised crash images; C17 (switch) rides on the same machinery."""
-import json, os, random, shutil, time
+import json, os, random, re, shutil, time
 from . import common as c
 from . import diskimg as di
 from . import ldbref
@@ -85,9 +85,10 @@ class Plan:
         self.all_classes = not q
         self.torn_cuts = 2 if q else 4
         self.nested_every = (40 if q else 12) if prop in ('C03', 'C05') else 0
-        self.follow = prop == 'C05'
+        self.follow = prop in ('C05', 'C03')
+        self.follow_only = ('gap', 'max') if prop == 'C03' else None     # C03: process-crash images only, acknowledged follow-up writes must survive the next open
         self.model_images = prop in ('C02', 'C03', 'C17')
-        self.gap_every = (1 if prop == 'C05' else 3 if q else 1) if prop in ('C03', 'C05') else 0
+        self.gap_every = (1 if prop == 'C05' else 2 if q else 1) if prop in ('C03', 'C05') else 0
         self.point_every = 1                     # heavy workloads: only every n-th system call is a crash point
         self.only_classes = None
 
@@ -193,6 +194,7 @@ def explore(exe, journal_path, bits, plan, seed, stats):
         ei, ii, img = job
         follow = (follow_base + (ei // 2) % 2) if (plan.follow and (ei + ii) % 2 == 0) else 0
         if plan.follow and img.cls == 'gap': follow = follow_base + 1      # no flush in the follow-up: its writes stay in the log
+        if plan.follow_only is not None and (img.cls not in plan.follow_only or (img.cls == 'max' and ei % 4 != 0)): follow = 0
         nest = bool(plan.nested_every and img.cls in ('max', 'min') and ei % plan.nested_every == 0 and ii < 2)
         if nest: follow = 0     # the journalled recovery must not contain follow-up writes
         k = key_of(img, follow, nest)
@@ -238,10 +240,77 @@ def explore(exe, journal_path, bits, plan, seed, stats):
 
 CFG = {
     'C02': ['ModelSyncedSurvive', 'RecSynced', 'RecNothingElse'],
-    'C03': ['ModelProcessCrash', 'RecAcked', 'RecNothingElse', 'RecAtomic'],
+    'C03': ['ModelProcessCrash', 'RecAcked', 'RecNothingElse', 'RecAtomic', 'RecFollow'],
     'C04': ['RecAtomic', 'RecNothingElse'],
     'C05': ['RecOpenOk', 'RecPrefix', 'RecAtomic', 'RecAgain', 'RecFollow', 'RecNothingElse'],
 }
+
+
+def fault_files_layer(prop, tier, seed, out, mc):
+    """C13 under I/O failures: journals of fault-injected workloads validated by DiskTrace with ModelNoLiveFileMissing
+    (after every system call, every table named by the MANIFEST bytes on disk is present and complete)."""
+    quick = tier == 'quick'
+    lib = c.build_lib(); exe = c.build_driver('crash', lib)
+    cfg = write_cfg(prop, ['ModelNoLiveFileMissing'])
+    ENOSPC, EIO = 28, 5
+    st = dict(workloads=0, runs=0, fired=0, states=0, transitions=0, traces=0)
+    wls = [(seed * 1000 + 9, 0x002, 30)] if quick else [(seed * 1000 + i, b, 40) for i, b in enumerate([0x000, 0x800, 0x102, 0x904])]
+    plan = Plan(tier, prop); plan.only_classes = []; plan.nested_every = 0; plan.point_every = 10 ** 9
+    for (wseed, bits, nb) in wls:
+        if out.full(): break
+        d0 = c.scratch('ffb'); j0 = os.path.join(d0, 'journal')
+        p = c.sh([exe, 'record', str(wseed), os.path.join(d0, 'db'), j0, str(bits), str(nb), '1'], timeout=120, env=dict(FAULT_K=10 ** 9, FAULT_PERSIST=0, FAULT_ERRNO=ENOSPC))
+        if p.returncode != 0: raise Broken('fault baseline failed rc=%s' % p.returncode)
+        n = 0
+        for text in marks_of(j0):
+            if text.startswith('count '): n = int(text.split(' ')[1])
+        c.rmtree(d0)
+        if n <= 0: raise Broken('no eligible calls counted')
+        # every write / fsync on a MANIFEST descriptor, one after the other: the run with k = (last fired call) + 1 trips at the next one
+        recs = []; k = 1
+        while k <= n and len(recs) < (70 if quick else 400):
+            d = c.scratch('ffl'); j = os.path.join(d, 'journal'); err = EIO if len(recs) % 2 else ENOSPC
+            p = c.sh([exe, 'record', str(wseed), os.path.join(d, 'db'), j, str(bits), str(nb), '1'], timeout=120,
+                     env=dict(FAULT_K=k, FAULT_PERSIST=0, FAULT_ERRNO=err, FAULT_MASK=6, FAULT_ONLY_MANIFEST=1))
+            call = None
+            if not getattr(p, 'timed_out', False) and p.returncode in (0, 3, 4):
+                for t in marks_of(j):
+                    if t.startswith('fault '):
+                        mm = re.search(r'call#(\d+)', t)
+                        if mm: call = int(mm.group(1))
+                        break
+            if call is None:
+                c.rmtree(d); break          # no further MANIFEST call (or the faulted execution died: C12's business)
+            recs.append(((call, 0, err), d, j)); k = call + 1
+
+        def one(rec):
+            jb, d, j = rec
+            stt = {}
+            lines, sim = explore(exe, j, bits, plan, wseed, stt)
+            tp = os.path.join(d, 'trace.ndjson')
+            with open(tp, 'w') as f:
+                for ln in lines: f.write(json.dumps(ln, separators=(',', ':')) + '\n')
+            r = c.trace_validate('DiskTrace', cfg, tp, timeout=900, heap='4g', header_lines=1)
+            return jb, (r, lines, tp, j, d, True), None
+        jobs = recs
+        for jb, val, err in c.pmap(one, jobs, 8):
+            st['runs'] += 1
+            if val is None:
+                continue          # crashes / hangs of faulted executions are C12's business
+            r, lines, tp, j, d, fired = val
+            st['fired'] += 1 if fired else 0; st['traces'] += 1
+            st['states'] += r['res'].distinct; st['transitions'] += r['res'].generated
+            if not r['accepted'] and not out.full():
+                idx = r['prefix'] or 0
+                bad = lines[idx] if idx < len(lines) else None
+                rd = c.replay_dir(prop, 'faultfiles'); shutil.copy(tp, os.path.join(rd, 'trace.ndjson')); shutil.copy(j, os.path.join(rd, 'journal'))
+                json.dump(dict(kind='faultfiles', prop=prop, workload=dict(seed=wseed, bits=bits, nb=nb), site=dict(k=jb[0], persist=jb[1], errno=jb[2]),
+                               violated=r['violated'], line=idx, event=bad), open(os.path.join(rd, 'replay.json'), 'w'), indent=1)
+                out.violation('after an injected I/O failure (call #%d, errno %d) a table named by the MANIFEST on disk is missing: DiskTrace %s at %s (seed=%d bits=%#x)' % (
+                    jb[0], jb[2], r['violated'] or 'rejects', json.dumps(bad)[:200], wseed, bits), rd, dict(kind='faultfiles', violated=r['violated']))
+            c.rmtree(d)
+        st['workloads'] += 1
+    mc['FaultFiles'] = st
 
 
 def write_cfg(prop, invs):
